@@ -72,7 +72,9 @@ def run(R):
         got = strict.split_lines(out)
         clean = all(b"\r" not in c and b"\n" not in c for c, _ in lines)
         if clean and len(got) == len(lines):
-            for (gc, gt), (c, t) in zip(got, lines):
+            for k_, ((gc, gt), (c, t)) in enumerate(zip(got, lines)):
+                if t == "N" and k_ + 1 < len(lines):
+                    t = "L"      # only the last line of the output can be without its newline (D97: it used to be joined with the next line)
                 want = "N" if t == "N" else {"native": "L", "lf": "L", "crlf": "C", "keep": t}[mode]
                 if gc != c or gt != want:
                     R.oracle_fail(f"line written with terminator {gt}, promised {want} (mode {mode})", {"request": q, "observed": x}); break
